@@ -26,6 +26,9 @@ type dsEntry struct {
 
 var dsUniverse = []string{"a", "a-b", "a/b", "a/b/c", "ab"}
 
+// second universe: two sibling directories with a child each (back-to-back deletes of directories)
+var dsUniverse2 = []string{"a", "a/x", "b", "b/y", "c"}
+
 func dsStat(e dsEntry) *types.Stat {
 	m := uint32(0644)
 	if e.dir {
@@ -34,7 +37,9 @@ func dsStat(e dsEntry) *types.Stat {
 	return &types.Stat{Path: e.path, Mode: m, Uid: uint32(e.ident), Size: int64(3), ModTime: 1000}
 }
 
-func dsLists() [][]dsEntry {
+func dsLists() [][]dsEntry { return dsListsOf(dsUniverse) }
+
+func dsListsOf(dsUniverse []string) [][]dsEntry {
 	var out [][]dsEntry
 	n := len(dsUniverse)
 	for mask := 0; mask < 1<<n; mask++ {
@@ -147,6 +152,7 @@ func TestGovcStandinDiff(t *testing.T) {
 	seed := 0
 	fmt.Sscan(os.Getenv("VERIF_SEED"), &seed)
 	lists := dsLists()
+	lists2 := dsListsOf(dsUniverse2)
 	type res struct {
 		Lists         int      `json:"lists"`
 		Evaluations   int      `json:"evaluations"`
@@ -155,8 +161,10 @@ func TestGovcStandinDiff(t *testing.T) {
 		Samples       []string `json:"samples"`
 		Failures      []string `json:"failures"`
 	}
-	r := res{Lists: len(lists)}
+	r := res{Lists: len(lists) + len(lists2)}
 	seen := map[string]bool{}
+	for pass, lists := range [][][]dsEntry{lists, lists2} {
+	_ = pass
 	for i, a := range lists {
 		for j, b := range lists {
 			// quick: a seeded 1/16 slice of the pairs; thorough: all
@@ -190,6 +198,7 @@ func TestGovcStandinDiff(t *testing.T) {
 				}
 			}
 		}
+	}
 	}
 	if out != "" {
 		b, _ := json.MarshalIndent(r, "", " ")
